@@ -23,7 +23,7 @@ ASSUMPTIONS = [
     "rejected programs are unjudged (failing is allowed); a program whose inferred widths cannot agree must be rejected",
 ]
 WEIGHTS = dict(ins=7, data=4, label=5, block=2, scope=1.2, macro=1, call=2.5, for_=1, if_=0.8, assign=1.5, sym=1, org=0.8, reloc=0.5,
-               ascii=0.8, incbin=0.5, branch=0.4, table=0.4, text=0.8, include=0.5)
+               ascii=0.8, incbin=0.5, branch=0.4, table=0.4, text=0.8, include=0.5, include_ips=0.3)
 
 
 def plan(tier: str, seed: int) -> list[dict]:
